@@ -46,6 +46,9 @@ func (r HReq) String() string {
 	case "prop":
 		return fmt.Sprintf("prop(k%d,slot %d,r%d)", r.Keys[0], r.Slot, r.Root)
 	default:
+		if len(r.Keys) > 8 {
+			return fmt.Sprintf("%s(%d keys k%d..k%d,%d->%d,r%d)", r.Kind, len(r.Keys), r.Keys[0], r.Keys[len(r.Keys)-1], r.S, r.T, r.Root)
+		}
 		return fmt.Sprintf("%s(k%v,%d->%d,r%d)", r.Kind, r.Keys, r.S, r.T, r.Root)
 	}
 }
@@ -66,12 +69,21 @@ func newC03Stack(dir string, wrapRuler func(ruler.Service) ruler.Service) (*c03S
 		return nil, err
 	}
 	s := &c03Stack{rig: r}
-	for k := 0; k < 2; k++ {
+	for k := 0; k < c03NKeys(); k++ {
 		a := c03Acct(k)
 		r.Adopt("Wallet 1", a)
 		s.accts = append(s.accts, a)
 	}
 	return s, nil
+}
+
+// c03NKeys is the number of accounts of the stack (VERIF_C03_NKEYS; 2 unless a large batch is under study).
+func c03NKeys() int {
+	n := 2
+	if v := os.Getenv("VERIF_C03_NKEYS"); v != "" {
+		fmt.Sscanf(v, "%d", &n)
+	}
+	return n
 }
 
 var c03Creds = &checker.Credentials{Client: rig.DefaultClient, RequestID: "r", IP: "10.0.0.1"}
@@ -374,6 +386,43 @@ func c03Recover(dir string, hist []HReq, signed map[string]bool) (bool, []string
 	return false, viols, nil
 }
 
+// c03Large: see phase (4) in C03.
+func c03Large(run *ev.Run, n int) (int, error) {
+	root := rig.Scratch("c03large")
+	defer os.RemoveAll(root)
+	dir := filepath.Join(root, "storage")
+	keys := make([]int, n)
+	for i := range keys {
+		keys[i] = i
+	}
+	hist := []HReq{{Kind: "atts", Keys: keys, S: 1, T: 4, Root: 1}}
+	nk := fmt.Sprintf("VERIF_C03_NKEYS=%d", n)
+	out, err := runChild(hist, dir, 0, nk, "VERIF_C03_NOCLOSE=1")
+	if err != nil {
+		return 0, err
+	}
+	m := parseMarks(out)
+	if !m.done {
+		return 0, fmt.Errorf("large batch: the child did not finish: %s", strings.Join(m.raw[max(0, len(m.raw)-3):], " | "))
+	}
+	os.Setenv("VERIF_C03_NKEYS", fmt.Sprint(n))
+	defer os.Unsetenv("VERIF_C03_NKEYS")
+	failedClosed, viols, err := c03Recover(dir, hist, m.signed)
+	if err != nil {
+		return 0, err
+	}
+	if failedClosed {
+		return len(m.signed), nil
+	}
+	for i, v := range viols {
+		if i >= 3 {
+			break
+		}
+		run.Violate(fmt.Sprintf("large-batch:%d", i), fmt.Sprintf("a batch of %d attestations is answered and the process killed; %s (%d such entries)", n, v, len(viols)), map[string]any{"check": "C03", "large_batch": n})
+	}
+	return len(m.signed), nil
+}
+
 func c03Histories(tier string) [][]HReq {
 	menu := []HReq{
 		{Kind: "att", Keys: []int{0}, S: 1, T: 4, Root: 1},
@@ -495,10 +544,22 @@ func C03(tier string) int {
 		run.HarnessErr = firstErr
 		return run.Finish()
 	}
+	// (4) one batch of very many keys (an implementation may split what it writes into several transactions): the
+	// process is killed right after the batch has been answered; every entry that reached signing must be protected.
+	largeN := 2500
+	if tier == "thorough" {
+		largeN = 20000
+	}
+	largeSigned, err := c03Large(run, largeN)
+	if err != nil {
+		run.HarnessErr = err
+		return run.Finish()
+	}
 	run.Coverage = map[string]any{
+		"large_batch":                            map[string]any{"keys": largeN, "entries_that_reached_signing": largeSigned},
 		"evaluations":                            stats.kills + stats.images + stats.fullRuns,
 		"distinct_nontrivial":                    stats.histories,
-		"rule":                                   "histories of 1-2 requests (all over a 9-request menu incl. conflicting ones and a batch whose first entry is refused, single/batch/proposal on 2 keys; 3 in thorough) plus fixed length-4 histories, run by a child process on the real signer stack; (1) the child is killed with SIGKILL at every hook point (store enter/exit, rules enter/exit, sign, request start/end); (2) the child runs under strace and every system-call boundary on the storage directory is a power-loss point: for each, every directory image allowed by the persistence model (metadata in order; O_DSYNC writes durable at exit and absent/complete/torn while in flight; other writes volatile until fsync and dropped as none/all/each/each suffix) is materialised; every image and every killed directory is reopened by the real code and probed with every request conflicting with a request that had reached signing: either the instance refuses to start or it refuses all of them; in the final image each completed write to the value log is damaged in turn (four garbled bytes) with the same oracle; (3) the storage runs full (RLIMIT_FSIZE in the child: the write crossing the limit is cut short, every later write fails) from each request of the history on, at offsets over the bytes that request appends to the value log, and the same restart-and-probe oracle is applied; distinct = histories",
+		"rule":                                   "histories of 1-2 requests (all over a 9-request menu incl. conflicting ones and a batch whose first entry is refused, single/batch/proposal on 2 keys; 3 in thorough) plus fixed length-4 histories, run by a child process on the real signer stack; (1) the child is killed with SIGKILL at every hook point (store enter/exit, rules enter/exit, sign, request start/end); (2) the child runs under strace and every system-call boundary on the storage directory is a power-loss point: for each, every directory image allowed by the persistence model (metadata in order; O_DSYNC writes durable at exit and absent/complete/torn while in flight; other writes volatile until fsync and dropped as none/all/each/each suffix) is materialised; every image and every killed directory is reopened by the real code and probed with every request conflicting with a request that had reached signing: either the instance refuses to start or it refuses all of them; in the final image each completed write to the value log is damaged in turn (four garbled bytes) with the same oracle; (3) the storage runs full (RLIMIT_FSIZE in the child: the write crossing the limit is cut short, every later write fails) from each request of the history on, at offsets over the bytes that request appends to the value log, and the same restart-and-probe oracle is applied; (4) one batch of very many keys (large_batch) is answered, the process is killed, and every entry is probed after the restart; distinct = histories",
 		"samples":                                samples.List(),
 		"exhaustive":                             !capped,
 		"histories":                              stats.histories,
